@@ -536,7 +536,9 @@ def monitorDamping (evs : List Ev) (peer : String) (conns : List ConnInfo) (trig
   let mut fails : List String := []
   let tEndObs := ((evs.find? fun e => e.ev == "api.call" && e.arg 0 == "Close").map (·.t)).getD ((evs.getLast?.map (·.t)).getD 0)
   for (t0, what) in triggers do
-    let until_ := min (t0 + 60 * sec) tEndObs
+    -- the hold-down lasts 60 s, or until the harness made the timer expire through the hook
+    let tExpire := ((evs.find? fun e => e.peer == peer && e.ev == "hook.expire" && e.t > t0).map (·.t)).getD (t0 + 60 * sec)
+    let until_ := min (min (t0 + 60 * sec) tEndObs) tExpire
     for e in evs do
       if e.peer == peer && e.ev == "dial" && e.t > t0 + 5 * ms && e.t < until_ then
         fails := fails ++ [s!"C12 an outbound attempt was made {(e.t - t0) / ms} ms after a protocol error ({what}): no hold-down"]
@@ -552,6 +554,16 @@ def monitorDamping (evs : List Ev) (peer : String) (conns : List ConnInfo) (trig
   match evs.find? fun e => e.peer == peer && e.ev == "log.damp" with
   | some d => if triggers.isEmpty then fails := fails ++ [s!"C12 the peer was damped ({d.arg 0} s) although no NOTIFICATION other than Cease was sent or received"]
               else if d.arg 0 != "60" then fails := fails ++ [s!"C12 first hold-down is {d.arg 0} s, not 60 s"]
+  | none => pure ()
+  -- when the period ends the peer is retried: an active peer dials again (a passive one is probed by the script)
+  match evs.find? fun e => e.peer == peer && e.ev == "hook.expire" with
+  | some x =>
+    let passive := ((evs.find? fun e => e.peer == peer && e.ev == "cfg").map (·.arg 6)).getD "0" == "1"
+    if !triggers.isEmpty && tEndObs > x.t + 300 * ms then
+      if !(evs.any fun e => e.peer == peer && e.ev == "log.undamp" && e.seq > x.seq) then
+        fails := fails ++ ["C12 the hold-down timer expired but the peer did not leave the hold-down"]
+      if !passive && !(evs.any fun e => e.peer == peer && e.ev == "dial" && e.seq > x.seq) then
+        fails := fails ++ ["C12 the hold-down period ended but the peer was not retried (no outbound attempt)"]
   | none => pure ()
   -- controls: after a Cease / FIN / RST the peer must come back promptly
   match evs.find? fun e => e.peer == peer && e.ev == "fault-done" with
@@ -590,7 +602,8 @@ def monitorAdmission (evs : List Ev) (peer : String) (conns : List ConnInfo) : L
         !((x.endSeq.map (fun q => decide (q < pr.seq))).getD false) && !((x.remoteClosed.map (fun q => decide (q < pr.seq))).getD false)
       let estUp := ((evs.filter fun e => e.peer == tp && before e && e.ev == "cb.exit" && e.arg 0 == "OnEstablished").length) >
                    ((evs.filter fun e => e.peer == tp && before e && e.ev == "cb.exit" && e.arg 0 == "OnClose").length)
-      let held := evs.any fun e => e.peer == tp && before e && e.ev == "log.damp"
+      let held := (evs.filter fun e => e.peer == tp && before e && e.ev == "log.damp").length >
+                  (evs.filter fun e => e.peer == tp && before e && e.ev == "log.undamp").length
       let served := !c.outbound.isEmpty
       if !configured then
         if served then fails := fails ++ [s!"C13 a connection from {src} to {dst} was served although no configured peer matches it"]
